@@ -90,6 +90,10 @@ def tokenize(s):
         toks.append((k, v))
     return toks
 
+QUIET_UNITS = {'tgold'}
+SHAPE_UNITS = {'beta', 'beta1', 'beta2', 'beta_1fu'}
+
+
 class Var:
     def __init__(self, name, typ, dims=None, charlen=None):
         self.name, self.typ, self.dims, self.charlen = name, typ, dims, charlen
@@ -298,6 +302,14 @@ class Transpiler:
             if l[1] == 'int' and r[1] == 'int':
                 return ('(%s %s %s)' % (l[0], self.CREL[op], r[0]), 'bool')
             self.sites += 1
+            # comparisons inside the golden-section search are near-ties by construction (the bracket converges on the
+            # extremum) and its result is continuous in their outcome: they are excluded from the robustness margin
+            if getattr(self, 'u', None) is not None and self.u.name.lower() in QUIET_UNITS:
+                return ('QCMP_%s(%s, %s, %d)' % (self.REL[op], l[0], r[0], self.curline), 'bool')
+            # rejection tests of the beta samplers compare against Fermi-function-weighted spectra, where the
+            # reference's short constants (0.511, 3.1415927) are worth up to ~5e-5 relative: own margin class
+            if getattr(self, 'u', None) is not None and self.u.name.lower() in SHAPE_UNITS:
+                return ('SCMP_%s(%s, %s, %d)' % (self.REL[op], l[0], r[0], self.curline), 'bool')
             return ('CMP_%s(%s, %s, %d)' % (self.REL[op], l[0], r[0], self.curline), 'bool')
         return l
 
